@@ -258,6 +258,9 @@ func referenceLine(l []byte, bh *Header) error {
 			rf.assemID = fs
 		case md5Tag:
 			hb := [16]byte{}
+			if hex.DecodedLen(len(f[3:])) > len(hb) {
+				return errBadHeader
+			}
 			n, err := hex.Decode(hb[:], f[3:])
 			if err != nil {
 				return err
